@@ -14,7 +14,8 @@
    highest line reached is kept in TLC register 1 so that a rejected history can be named. *)
 EXTENDS Register, TLC, Json, FiniteSets, SequencesExt
 
-CONSTANTS TraceFile, Eps
+CONSTANTS TraceFile, Eps,
+          AllowErr   \* TRUE only where faults are injected: a transport error leaves the outcome open
 Trace == ndJsonDeserialize(TraceFile)
 
 VARIABLES i, reg, pend, tprev
@@ -69,7 +70,7 @@ Res == /\ i <= Len(Trace) /\ Trace[i].t = "res"
                 /\ LockTimingOK(p.e, e)
                 /\ TTLReportOK(p, e)
              \* indeterminate outcome: applied or not, both admitted
-             \/ /\ e.ret = "err" /\ p.st \in {"done", "called"}
+             \/ /\ AllowErr /\ e.ret = "err" /\ p.st \in {"done", "called"}
           /\ pend' = [pend EXCEPT ![e.c] = Idle]
        /\ tprev' = Trace[i].ts /\ i' = i + 1 /\ Mark(i + 1) /\ UNCHANGED reg
 
